@@ -66,6 +66,15 @@ pub fn main() -> i32 {
     crate::kit::panics::quiet(args[0] != "trace");
     match args[0].as_str() {
         "worker" => worker(&args[1..]),
+        "worker-one" => {
+            // `check worker-one <engine> <mode> <property> <seed>`: one explicit seed.
+            crate::kit::panics::quiet(true);
+            let seed: u64 = args[4].parse().unwrap();
+            println!("START {seed}");
+            let r = props::run_case(&args[1], &args[2], seed, false, &args[3]);
+            println!("RESULT {}", serde_json::to_string(&r).unwrap());
+            0
+        }
         "trace" => trace(&args[1..]),
         "selftest-determinism" => selftest_determinism(&args[1..]),
         "survey" => survey(&args[1..]),
@@ -306,9 +315,23 @@ fn check(p: &props::Prop, args: &[String]) -> i32 {
     }
     // Harness errors make the check untrustworthy: exit 2.
     let mut harness_errors = vec![];
+    // A worker process killed by a signal / abort while running a seed: the code under test took
+    // the process down (memory unsafety, must_complete abort, stack overflow). That is a
+    // violation of the property being checked, reproducible from the announced seed.
+    let mut aborts: Vec<(String, u64, String)> = vec![];
     for (b, o) in &all {
         for (seed, why) in &o.aborted {
-            harness_errors.push(format!("{}/{} seed {seed}: worker died: {why}", b.engine, b.mode));
+            if *seed == 0 {
+                harness_errors.push(format!("{}/{}: worker died before announcing a seed: {why}", b.engine, b.mode));
+                continue;
+            }
+            let dir = verif_dir().join("replays");
+            std::fs::create_dir_all(&dir).ok();
+            let path = dir.join(format!("{}-{}-{}-{seed}.abort.json", p.id, b.engine, b.mode));
+            let doc = json!({"property": p.id, "engine": b.engine, "mode": b.mode, "seed": seed,
+                "expected": {"class": "process_aborted", "detail": why.lines().next().unwrap_or("")}});
+            std::fs::write(&path, serde_json::to_string_pretty(&doc).unwrap()).ok();
+            aborts.push((path.to_string_lossy().to_string(), *seed, why.clone()));
         }
         for r in &o.results {
             if let Some(e) = &r.harness_error {
@@ -354,6 +377,11 @@ fn check(p: &props::Prop, args: &[String]) -> i32 {
         }
         return 2;
     }
+    if let Some((path, seed, why)) = aborts.first() {
+        println!("  worker process died while running seed {seed}: {}", why.lines().next().unwrap_or(""));
+        println!("VIOLATION property={} replay={path}", p.id);
+        return 1;
+    }
     if new_violations.is_empty() {
         println!("OK property={} held on {} executions", p.id, all.iter().map(|(_, o)| o.results.len()).sum::<usize>());
         return 0;
@@ -377,6 +405,23 @@ fn replay(p: &props::Prop, path: &str) -> i32 {
     };
     let v: Value = serde_json::from_str(&s).expect("replay file is not JSON");
     let engine = v["engine"].as_str().unwrap_or("").to_string();
+    if v["expected"]["class"].as_str() == Some("process_aborted") {
+        // Re-run the seed in a child process and watch it die.
+        let exe = std::env::current_exe().expect("current_exe");
+        let st = Command::new(exe)
+            .args(["worker-one", &engine, v["mode"].as_str().unwrap_or(""), p.id, &v["seed"].as_u64().unwrap_or(0).to_string()])
+            .stdout(Stdio::null())
+            .stderr(Stdio::null())
+            .status()
+            .expect("spawn");
+        if !st.success() {
+            println!("reproduced: the process running seed {} died: {st}", v["seed"]);
+            println!("VIOLATION property={} replay={path}", p.id);
+            return 1;
+        }
+        println!("not reproduced: the process survived");
+        return 0;
+    }
     let (r, log) = props::replay_case(&engine, &v);
     let n = log.len();
     for l in log.iter().skip(n.saturating_sub(60)) {
